@@ -3688,6 +3688,35 @@ static void state_write_content(struct snapraid_state* state, uint32_t* out_crc)
 	*out_crc = crc;
 }
 
+/**
+ * Read the CRC stored in the last four bytes of a content file.
+ * Return 0 on success.
+ */
+static int state_read_stored_crc(const char* path, data_off_t size, unsigned char* crc)
+{
+	int f;
+	int ret;
+
+	if (size < 4)
+		return -1;
+
+	f = open(path, O_RDONLY | O_BINARY);
+	if (f == -1)
+		return -1;
+
+	ret = pread(f, crc, 4, size - 4);
+	if (ret != 4) {
+		close(f);
+		return -1;
+	}
+
+	ret = close(f);
+	if (ret != 0)
+		return -1;
+
+	return 0;
+}
+
 void state_read(struct snapraid_state* state)
 {
 	STREAM* f;
@@ -3781,6 +3810,23 @@ void state_read(struct snapraid_state* state)
 
 				/* ensure to rewrite all the content files */
 				state->need_write = 1;
+			} else {
+				unsigned char crc[4];
+				unsigned char other_crc[4];
+
+				/* with the same size they could still be two different versions, */
+				/* like after an interruption in the middle of the final renames, */
+				/* then compare also the stored CRC */
+				if (state_read_stored_crc(path, st.st_size, crc) != 0
+					|| state_read_stored_crc(other_path, other_st.st_size, other_crc) != 0
+					|| memcmp(crc, other_crc, 4) != 0
+				) {
+					log_fatal("WARNING! Content files '%s' and '%s' are different!\n", path, other_path);
+					log_fatal("Likely one of the two is outdated!\n");
+
+					/* ensure to rewrite all the content files */
+					state->need_write = 1;
+				}
 			}
 		}
 
